@@ -25,6 +25,15 @@ class Check(RuntimeCheck):
     theorems = ['C03_verify_iff', 'C03_lines', 'C03_line_count', 'C03_quantifier_meaning',
                 'C03_expectation_of_chain', 'C03_teardown_verdict', 'C03_counts_are_matches', 'C03_final_count_is_matches', 'C03_source_lower_bound', 'C03_source_verify_condition', 'C03_source_never_called']
 
+    def extra(self, rep, tier, seed):
+        # an original consumed by a by-value / Rc / Arc provided method still verifies: compiled delegation cases with met and unmet expectations
+        from .macro_common import MacroCheck
+        class Generated(MacroCheck):
+            prop = 'C03'
+            case_prefixes = ('own.default', 'rc.default.shared', 'arc.default.shared')
+            facts_of_interest = r'$^'
+        Generated().explore_into(rep, tier, seed, ir=False, merge=True)
+
     def run(self, tier, seed, replay=None):
         # re-translate the verification / slot-ownership functions of src/counter.rs and src/fn_mocker.rs first
         from .. import engine
@@ -76,6 +85,8 @@ class Check(RuntimeCheck):
         return [
             ('v', Profile(max_terms=5, max_calls=10, resp_weights=[('ret', 8), ('def', 1), ('ans', 2)], partial_chance=(0, 1), unmentioned_call_chance=(0, 1), end='mixed', clones=1), n),
             ('vo', Profile(max_terms=4, max_calls=10, ordered_weight=3, resp_weights=[('ret', 8), ('ans', 2)], end='mixed'), n // 2),
+            # responses that hand the call on (default body / real function) on methods that have both: matches are counted all the same
+            ('vd', Profile(methods=[3, 7], max_terms=4, max_calls=10, resp_weights=[('ret', 3), ('dfl', 4), ('unm', 3), ('ans', 1)], partial_chance=(1, 4), unmentioned_call_chance=(0, 1), end='mixed', clones=1), n // 2),
         ]
 
     def nontrivial(self, name, text, real_lines):
